@@ -2282,3 +2282,217 @@ mod tests {
 		}
 	}
 }
+
+/// Verification hooks (feature `_verif_hooks` only); see `ln::verif_hooks`. Thin wrappers running
+/// the private fee-bumping and timer arithmetic of this file on caller-supplied numbers.
+#[cfg(feature = "_verif_hooks")]
+pub mod verif_hooks_package {
+	use super::*;
+	use crate::types::payment::PaymentHash;
+	use crate::util::logger::Record;
+
+	struct NoLog;
+	impl Logger for NoLog {
+		fn log(&self, _: Record) {}
+	}
+
+	struct ConstFee(u32);
+	impl FeeEstimator for ConstFee {
+		fn get_est_sat_per_1000_weight(&self, _: ConfirmationTarget) -> u32 {
+			self.0
+		}
+	}
+
+	fn strategy(s: u8) -> FeerateStrategy {
+		match s {
+			0 => FeerateStrategy::RetryPrevious,
+			1 => FeerateStrategy::HighestOfPreviousOrNew,
+			_ => FeerateStrategy::ForceBump,
+		}
+	}
+
+	/// The crate-private fee/timer constants, by name.
+	pub fn constants() -> Vec<(&'static str, u64)> {
+		vec![
+			("LOW_FREQUENCY_BUMP_INTERVAL", LOW_FREQUENCY_BUMP_INTERVAL as u64),
+			("MIDDLE_FREQUENCY_BUMP_INTERVAL", MIDDLE_FREQUENCY_BUMP_INTERVAL as u64),
+			("HIGH_FREQUENCY_BUMP_INTERVAL", HIGH_FREQUENCY_BUMP_INTERVAL as u64),
+			("FEERATE_FLOOR_SATS_PER_KW", FEERATE_FLOOR_SATS_PER_KW as u64),
+			(
+				"INCREMENTAL_RELAY_FEE_SAT_PER_1000_WEIGHT",
+				INCREMENTAL_RELAY_FEE_SAT_PER_1000_WEIGHT,
+			),
+			("MIN_CLTV_EXPIRY_DELTA", MIN_CLTV_EXPIRY_DELTA as u64),
+		]
+	}
+
+	/// `chaininterface::compute_feerate_sat_per_1000_weight`.
+	pub fn run_compute_feerate_sat_per_1000_weight(fee_sat: u64, weight: u64) -> u32 {
+		super::compute_feerate_sat_per_1000_weight(fee_sat, weight)
+	}
+
+	/// `compute_fee_from_spent_amounts` with a fee estimator answering `estimate` for every target.
+	pub fn run_compute_fee_from_spent_amounts(
+		input_amounts: u64, predicted_weight: u64, estimate: u32,
+	) -> Option<(u64, u64)> {
+		let logger = NoLog;
+		let est = ConstFee(estimate);
+		super::compute_fee_from_spent_amounts(
+			input_amounts,
+			predicted_weight,
+			ConfirmationTarget::UrgentOnChainSweep,
+			&LowerBoundedFeeEstimator::new(&est),
+			&logger,
+		)
+	}
+
+	/// `feerate_bump` with a fee estimator answering `estimate` for every target. `strat`: 0 =
+	/// `RetryPrevious`, 1 = `HighestOfPreviousOrNew`, otherwise `ForceBump`.
+	pub fn run_feerate_bump(
+		predicted_weight: u64, input_amounts: u64, dust_limit_sats: u64, previous_feerate: u64,
+		strat: u8, estimate: u32,
+	) -> Option<(u64, u64)> {
+		let logger = NoLog;
+		let est = ConstFee(estimate);
+		super::feerate_bump(
+			predicted_weight,
+			input_amounts,
+			dust_limit_sats,
+			previous_feerate,
+			&strategy(strat),
+			ConfirmationTarget::UrgentOnChainSweep,
+			&LowerBoundedFeeEstimator::new(&est),
+			&logger,
+		)
+	}
+
+	fn solving_data(kind: u8, cltv_expiry: u32) -> PackageSolvingData {
+		let point = PublicKey::from_slice(&[2; 33]).unwrap();
+		let features = ChannelTypeFeatures::only_static_remote_key();
+		let htlc = |offered: bool| HTLCOutputInCommitment {
+			offered,
+			amount_msat: 1_000_000,
+			cltv_expiry,
+			payment_hash: PaymentHash([1; 32]),
+			transaction_output_index: None,
+		};
+		match kind {
+			0 => PackageSolvingData::RevokedOutput(RevokedOutput {
+				per_commitment_point: point,
+				counterparty_delayed_payment_base_key: point.into(),
+				counterparty_htlc_base_key: point.into(),
+				per_commitment_key: SecretKey::from_slice(&[1; 32]).unwrap(),
+				weight: WEIGHT_REVOKED_OUTPUT,
+				amount: Amount::ZERO,
+				on_counterparty_tx_csv: 0,
+				channel_parameters: None,
+				outpoint_confirmation_height: None,
+			}),
+			1 => PackageSolvingData::RevokedHTLCOutput(RevokedHTLCOutput {
+				per_commitment_point: point,
+				counterparty_delayed_payment_base_key: point.into(),
+				counterparty_htlc_base_key: point.into(),
+				per_commitment_key: SecretKey::from_slice(&[1; 32]).unwrap(),
+				weight: weight_revoked_received_htlc(&features),
+				amount: 1000,
+				htlc: htlc(false),
+				channel_parameters: None,
+				outpoint_confirmation_height: None,
+			}),
+			2 => PackageSolvingData::CounterpartyOfferedHTLCOutput(CounterpartyOfferedHTLCOutput {
+				per_commitment_point: point,
+				counterparty_delayed_payment_base_key: point.into(),
+				counterparty_htlc_base_key: point.into(),
+				preimage: PaymentPreimage([2; 32]),
+				htlc: htlc(false),
+				channel_type_features: features,
+				channel_parameters: None,
+				outpoint_confirmation_height: None,
+			}),
+			3 => PackageSolvingData::HolderHTLCOutput(HolderHTLCOutput {
+				preimage: Some(PaymentPreimage([2; 32])),
+				amount_msat: 1_000_000,
+				cltv_expiry: 0,
+				channel_type_features: features,
+				htlc_descriptor: None,
+				outpoint_confirmation_height: None,
+			}),
+			4 => PackageSolvingData::CounterpartyReceivedHTLCOutput(
+				CounterpartyReceivedHTLCOutput {
+					per_commitment_point: point,
+					counterparty_delayed_payment_base_key: point.into(),
+					counterparty_htlc_base_key: point.into(),
+					htlc: htlc(true),
+					channel_type_features: features,
+					channel_parameters: None,
+					outpoint_confirmation_height: None,
+				},
+			),
+			5 => PackageSolvingData::HolderHTLCOutput(HolderHTLCOutput {
+				preimage: None,
+				amount_msat: 1_000_000,
+				cltv_expiry,
+				channel_type_features: features,
+				htlc_descriptor: None,
+				outpoint_confirmation_height: None,
+			}),
+			_ => PackageSolvingData::HolderFundingOutput(HolderFundingOutput {
+				funding_redeemscript: ScriptBuf::new(),
+				funding_amount_sats: None,
+				channel_type_features: features,
+				commitment_tx: None,
+				channel_parameters: None,
+			}),
+		}
+	}
+
+	fn template(
+		inputs: &[(u8, u32)], counterparty_spendable_height: u32, feerate_previous: u64,
+	) -> PackageTemplate {
+		let inputs: Vec<_> = inputs
+			.iter()
+			.enumerate()
+			.map(|(i, (kind, expiry))| {
+				let outpoint =
+					BitcoinOutPoint { txid: Txid::from_raw_hash(bitcoin::hashes::Hash::all_zeros()), vout: i as u32 };
+				(outpoint, solving_data(*kind, *expiry))
+			})
+			.collect();
+		let malleability = PackageSolvingData::map_output_type_flags(&inputs[0].1);
+		PackageTemplate {
+			inputs,
+			malleability,
+			counterparty_spendable_height,
+			feerate_previous,
+			height_timer: 0,
+		}
+	}
+
+	/// `PackageTemplate::get_height_timer` on a synthetic package. Each input is `(kind, expiry)`
+	/// with kind 0 = `RevokedOutput`, 1 = `RevokedHTLCOutput`, 2 = `CounterpartyOfferedHTLCOutput`,
+	/// 3 = `HolderHTLCOutput` with preimage, 4 = `CounterpartyReceivedHTLCOutput`, 5 =
+	/// `HolderHTLCOutput` without preimage, otherwise `HolderFundingOutput`; `expiry` is the HTLC's
+	/// `cltv_expiry` where the variant has one.
+	pub fn run_get_height_timer(
+		inputs: &[(u8, u32)], counterparty_spendable_height: u32, current_height: u32,
+	) -> u32 {
+		template(inputs, counterparty_spendable_height, 0).get_height_timer(current_height)
+	}
+
+	/// `PackageTemplate::package_locktime` on a synthetic package (inputs as in
+	/// [`run_get_height_timer`]).
+	pub fn run_package_locktime(inputs: &[(u8, u32)], current_height: u32) -> u32 {
+		template(inputs, 0, 0).package_locktime(current_height)
+	}
+
+	/// `PackageTemplate::compute_package_feerate` with `feerate_previous` as given and a fee
+	/// estimator answering `estimate` for every target (`strat` as in [`run_feerate_bump`]).
+	pub fn run_compute_package_feerate(feerate_previous: u64, strat: u8, estimate: u32) -> u32 {
+		let est = ConstFee(estimate);
+		template(&[(6, 0)], 0, feerate_previous).compute_package_feerate(
+			&LowerBoundedFeeEstimator::new(&est),
+			ConfirmationTarget::UrgentOnChainSweep,
+			&strategy(strat),
+		)
+	}
+}
